@@ -192,7 +192,9 @@ def h_labels(env, kernels_spec, names):
     env.eps_zero()
     rl = [_rxn(env, n, vals) for n in names]
     # mode-2 reactions with orbital entries index ks_baseline_dict by the tuple: only plain systems are used with mode 2 here
-    ok, _ = env.attempt("add_reactions_returns", lambda: gp.add_reactions([(m, dict(r)) for m, r in rl]))
+    # the caller's reaction dicts: the *same* objects are added again after reset_reactions (the usual way a list is re-used)
+    rl_objs = [(m, dict(r)) for m, r in rl]
+    ok, _ = env.attempt("add_reactions_returns", lambda: gp.add_reactions(rl_objs))
     if not ok:
         return
     env.check("list_lengths", len(gp.rxn_ref_list) == len(gp.rxn_noise_list) == len(rl) and all(len(k.rxn_cov_list) == len(rl) for k in kernels), "")
@@ -206,7 +208,7 @@ def h_labels(env, kernels_spec, names):
     first = (list(gp.rxn_ref_list), list(gp.rxn_noise_list), [list(k.rxn_cov_list) for k in kernels])
     gp.reset_reactions()
     env.check("reset_clears", gp.rxn_ref_list == [] and gp.rxn_noise_list == [] and all(k.rxn_cov_list == [] for k in kernels), "")
-    gp.add_reactions([(m, dict(r)) for m, r in rl])
+    gp.add_reactions(rl_objs)
     for i in range(len(rl)):
         env.equal("readd_label_%d" % i, gp.rxn_ref_list[i], first[0][i])
         env.equal("readd_noise_%d" % i, gp.rxn_noise_list[i], first[1][i])
